@@ -15,10 +15,6 @@ package rhp
 //@ extern rhp4.VerifyLeafProof pure
 //@ extern rhp4.VerifySectorRootsProof pure
 //@   requires [range] numSectors == 0 || (len(sectorRoots) == end - start && end <= numSectors && start < end)
-//@ extern rhp4.ReviseForFreeSectors pure
-//@ extern rhp4.ReviseForAppendSectors pure
-//@ extern rhp4.ReviseForSectorRoots pure
-//@   ensures result0.Filesize == fc.Filesize
 //@ extern (*rhp4.RPCSectorRootsRequest).Validate
 //@   assigns nothing
 //@   ensures result == nil ==> req.Length > 0 && req.Offset <= fc.Filesize / rhp4.SectorSize && req.Length <= fc.Filesize / rhp4.SectorSize - req.Offset
